@@ -31,6 +31,8 @@ def grid(scheme, tier_="quick"):
     elif scheme == "CJJ14.Pi2Lev":
         g = [v(param_B=2, param_b=2, param_B_prime=2, param_b_prime=2),
              v(param_B=2, param_b=2, param_B_prime=2, param_b_prime=2, param_identifier_size=2),
+             # pointer width (B*id)//B' = 7 does not divide the block: B'*7 = 14 < B*id = 15 bytes (padding of pointer blocks matters)
+             v(param_B=3, param_b=3, param_B_prime=2, param_b_prime=2, param_identifier_size=5),
              v(param_B=3, param_b=3, param_B_prime=3, param_b_prime=3, param_identifier_size=4),
              v(param_B=4, param_b=2, param_B_prime=4, param_b_prime=2, param_identifier_size=4),
              v()]
@@ -50,7 +52,7 @@ def grid(scheme, tier_="quick"):
              v(param_lambda=16, param_identifier_size=4), v(param_L=3, param_actual_storage_level_ratio=0.5)]
     else:
         raise ValueError(scheme)
-    return g if tier_ == "thorough" else g[:3]
+    return g if tier_ == "thorough" else g[:4 if scheme == "CJJ14.Pi2Lev" else 3]
 
 
 def fit(scheme, cfg, profile, db):
